@@ -159,6 +159,9 @@ Proof.
   - eapply forallb_impl; [|exact H2]. intros x Hx. apply middle_byte_facts in Hx. tauto.
 Qed.
 
+Lemma trailing_byte_clean x : trailing_byte x = true -> clean x = true.
+Proof. unfold trailing_byte, is_nul_cr_lf, clean, is_crlf. intros Hx. lia. Qed.
+
 (* ---- CR/LF-freedom of a rendered line ---------------------------------------------------- *)
 
 Lemma clean_spaces n : forallb clean (spaces n) = true.
@@ -314,8 +317,8 @@ Proof.
     + destruct (a_trailing a) as [[n t]|]; cbn [render_trailing]; [|apply clean_spaces].
       apply Bool.andb_true_iff in Htr. destruct Htr as [Ht _].
       rewrite forallb_app, clean_spaces. cbn [forallb andb]. change (clean 58) with true. cbn [andb].
-      eapply forallb_impl; [|exact Ht]. intros x Hx. unfold trailing_byte, is_nul_cr_lf in Hx. unfold clean, is_crlf. lia.
-  - unfold body_of, rest_part. rewrite !app_length. lia.
+      eapply forallb_impl; [|exact Ht]. exact trailing_byte_clean.
+  - unfold body_of, rest_part. rewrite !app_length. clear - Hclen. lia.
   - exact Heol.
 Qed.
 
@@ -361,3 +364,15 @@ Section ServerTime.
     - intros ->. reflexivity.
   Qed.
 End ServerTime.
+
+(* ---- outside the grammar: a RUN of SPACE after the prefix or the tag section -------------------
+   RFC 1459's <SPACE> is one or more spaces; RFC 2812 and IRCv3 have a single one there and
+   Spec/Grammar.v follows them.  What the parser does with a run (candidate finding
+   space-run-after-prefix): the command comes out empty and the real command becomes a
+   parameter. *)
+Example space_run_after_prefix :
+  parse_event (bs ":nick  PRIVMSG #c :x")
+  = Ok (Some (mkWEvent None (Some (mkWSource (bs "nick") [] [])) [] [bs "PRIVMSG"; bs "#c"; bs "x"]))
+  /\ parse_event (bs "@a=b  :nick PRIVMSG #c :x")
+  = Ok (Some (mkWEvent (Some [(bs "a", bs "b")]) None [] [bs "nick PRIVMSG #c :x"])).
+Proof. vm_compute. split; reflexivity. Qed.
